@@ -137,7 +137,7 @@ NewCall(kind, pay, md, to) ==
   [kind |-> kind, id |-> "", pay |-> pay, md |-> md, dl |-> IF to > 0 THEN T + to ELSE -1,
    opened |-> "", sent |-> <<>>, late |-> <<>>, nW |-> 0, nOk |-> 0,
    closeCalled |-> FALSE, closeW |-> FALSE, rstW |-> FALSE, cancelled |-> FALSE,
-   recvd |-> 0, term |-> "", tcode |-> -1, uret |-> FALSE, sendFailed |-> FALSE]
+   recvd |-> 0, term |-> "", tcode |-> -1, uret |-> FALSE, sendFailed |-> FALSE, rstLost |-> FALSE]
 
 UCall(c, pay, md, to) ==
   /\ c \notin DOMAIN calls
@@ -666,6 +666,14 @@ Fault(what) ==
   /\ UNCHANGED <<cfg, phase, calls, byId, hi, gaps, cw, nSR, sw, nCR, cin, sin, preq, hnds, hOf,
                  creg, sreg, base, pend, live, cregN, parked>>
 
+\* The transport refused the write of a stream's reset while the connection stays up (one failed POST, say): the
+\* client has made its one attempt - no second reset follows - and its peer cannot know that the stream is over.
+WFailRst(id) ==
+  /\ flt' = flt \cup {"cwfail"}
+  /\ calls' = IF id \in DOMAIN byId THEN [calls EXCEPT ![byId[id]].rstW = TRUE, ![byId[id]].rstLost = TRUE] ELSE calls
+  /\ UNCHANGED <<cfg, phase, byId, hi, gaps, cw, nSR, sw, nCR, cin, sin, preq, hnds, hOf,
+                 creg, sreg, base, pend, live, cregN, parked>>
+
 Unfault(what) ==
   /\ flt' = flt \ {what}
   /\ UNCHANGED <<cfg, phase, calls, byId, hi, gaps, cw, nSR, sw, nCR, cin, sin, preq, hnds, hOf,
@@ -799,7 +807,7 @@ Quiesce(ngor, nsrv, unreadS, unreadC) ==
   /\ G("letgo", (~Stuck /\ ~CliDown /\ ~SrvDown) =>
         \A v \in live : (v.kind # "unary" /\ v.in \in {"recv", "ctxwait"} /\ v.h \in DOMAIN hnds) =>
            ~\E c \in DOMAIN calls : /\ calls[c].id = hnds[v.h].id /\ calls[c].kind # "unary"
-                                    /\ ClientFinished(c) /\ Cin(calls[c].id).close = ""
+                                    /\ ClientFinished(c) /\ Cin(calls[c].id).close = "" /\ ~calls[c].rstLost
                                     /\ (v.in = "ctxwait" \/ hnds[v.h].nrecv = Len(Sin(hnds[v.h].id).items)))
   \* after a quiescent point a finished stream is definitely unregistered
   /\ sin' = [id \in DOMAIN sin |-> IF sin[id].st = "closing" /\ ~Stuck THEN [sin[id] EXCEPT !.st = "dead"] ELSE sin[id]]
